@@ -22,7 +22,12 @@
 //   ctx:  optional 5th component, cache node Take kinds only: the caller's own context.
 //         0 = none (Take / TakeWithExpire), 1 = a live context (TakeCtx / TakeWithExpireCtx),
 //         2 = cancelled while its loader runs (after the gate), 3 = its deadline passes while its loader
-//         runs, 4 = already done when the call is made (event "ctxdone").
+//         runs, 4 = already done when the call is made (event "ctxdone"),
+//         5 / 6 = cancelled / deadline passing DURING the store call: the caller parks at gate "store" inside
+//         the redis GET of its flight (a go-redis hook added with redis.WithHook) and its context becomes
+//         done when it is released (event "ctxdone"), before the command goes to the store.
+//   err -3: the user function ends its goroutine with runtime.Goexit (last op of a script only): the
+//         deferred epilogue of the call runs as for a panic; reported like a panicked call.
 // Events (logical clock): inv (call invoked), fs / fe (user function started / ended),
 //   ret [val, err, fresh] (call returned; err -2 = the call panicked), del, fault.
 //   The user function parks at gate "fn" between fs and fe.
@@ -37,6 +42,7 @@ import (
 	"errors"
 	"fmt"
 	"io"
+	"runtime"
 	"strconv"
 	"strings"
 	"sync"
@@ -44,6 +50,7 @@ import (
 	"time"
 
 	"github.com/alicebob/miniredis/v2"
+	red "github.com/redis/go-redis/v9"
 	"github.com/zeromicro/go-zero/core/collection"
 	"github.com/zeromicro/go-zero/core/logx"
 	"github.com/zeromicro/go-zero/core/stores/cache"
@@ -80,7 +87,33 @@ const (
 	codeNotFound        = 9
 	codeWrappedNotFound = 19
 	codePanic           = -2
+	codeGoexit          = -3
 )
+
+// storeHook parks an armed actor inside its next redis GET and makes its context done there.
+type storeHook struct {
+	ctl *sched.Ctl
+	arm *sync.Map // actor -> func() (cancels the actor's context)
+}
+
+func (h storeHook) DialHook(next red.DialHook) red.DialHook { return next }
+func (h storeHook) ProcessPipelineHook(next red.ProcessPipelineHook) red.ProcessPipelineHook {
+	return next
+}
+func (h storeHook) ProcessHook(next red.ProcessHook) red.ProcessHook {
+	return func(ctx context.Context, cmd red.Cmder) error {
+		if cmd.Name() == "get" {
+			if a := h.ctl.Actor(); a >= 0 {
+				if f, ok := h.arm.LoadAndDelete(a); ok {
+					h.ctl.Gate(a, "store", h.ctl.CurOp(a))
+					h.ctl.Log(a, "ctxdone", h.ctl.CurOp(a))
+					f.(func())()
+				}
+			}
+		}
+		return next(ctx, cmd)
+	}
+}
 
 func keyString(key int64) string {
 	if key%1000 == 0 {
@@ -306,6 +339,7 @@ func runCase(c Case) (out Out) {
 	// instead of timing out.
 	ctl.MutexBlocked = func(stack string) bool { return strings.Contains(stack, "/core/syncx.") }
 
+	var armed sync.Map
 	var insts [2]*instance
 	inst := func(key int64) *instance {
 		n := int(key/1000) % 2
@@ -338,7 +372,7 @@ func runCase(c Case) (out Out) {
 					return out
 				}
 				defer in.mini.Close()
-				rds := redis.New(in.mini.Addr())
+				rds := redis.New(in.mini.Addr(), redis.WithHook(storeHook{ctl: ctl, arm: &armed}))
 				rds.Ping() // dial now: the first command of an actor must not wait for a TCP handshake
 				barrier := &gatedSF{inner: syncx.NewSingleFlight(), ctl: ctl, noPre: true, post: true}
 				if op[1] >= 1000 {
@@ -395,6 +429,9 @@ func runCase(c Case) (out Out) {
 		if e == codePanic {
 			panic(codeErr(codePanic))
 		}
+		if e == codeGoexit {
+			runtime.Goexit()
+		}
 	}
 	asInt := func(v any) int64 {
 		if x, ok := v.(int64); ok {
@@ -412,11 +449,14 @@ func runCase(c Case) (out Out) {
 		*dests[t] = destBlank
 	}
 	call := func(tid, i int, op []int64) {
+		normal := false
 		defer func() {
-			if r := recover(); r != nil {
+			if r := recover(); r != nil || !normal {
+				// a panic, or runtime.Goexit unwinding the goroutine: the call did not return
 				ctl.Log(tid, "ret", i, -1, codePanic, -1)
 			}
 		}()
+		defer func() { armed.Delete(tid) }()
 		kind, key, val, e := op[0], op[1], op[2], op[3]
 		in := inst(key)
 		ks := keyString(key)
@@ -462,6 +502,11 @@ func runCase(c Case) (out Out) {
 			if mode == 4 {
 				cx.finish(context.Canceled)
 				ctl.Log(tid, "ctxdone", i)
+			}
+			if mode == 5 {
+				armed.Store(tid, func() { cx.finish(context.Canceled) })
+			} else if mode == 6 {
+				armed.Store(tid, func() { cx.finish(context.DeadlineExceeded) })
 			}
 			query := func(v any) error {
 				body(tid, i, 5, key, e)
@@ -546,6 +591,7 @@ func runCase(c Case) (out Out) {
 			}
 			ctl.Log(tid, "ret", i, rv, errCode(err), -1)
 		}
+		normal = true
 	}
 
 	for tid, script := range c.Scripts {
